@@ -271,6 +271,10 @@ func RunAPI(c APICase) APIResult {
 		if o.cls != "ST" && o.cls != "II" && o.cls != "panic" {
 			kept = append(kept, calls[i])
 			keptIdx = append(keptIdx, i)
+		} else if o.cls != "panic" && (len(o.emis) > 0 || len(o.cbs) > 0) {
+			res.Violations = append(res.Violations, Violation{"C10", "RejectedCallChangedBehaviour",
+				fmt.Sprintf("%s me=%d: call %d %s(%d,%s) is refused (%s) yet sends %v and invokes the callbacks %v (sequence %v)",
+					c.Proto, c.Me, i, calls[i].Op, calls[i].I, calls[i].K, o.cls, emisKinds(o.emis), o.cbs, calls)})
 		}
 	}
 	if len(kept) < len(calls) {
@@ -328,6 +332,36 @@ func RunAPI(c APICase) APIResult {
 			for _, v := range scratch.Violations {
 				res.Violations = append(res.Violations, v)
 				break
+			}
+		}
+	}
+	// ... and once a call that the instance REFUSES is inserted at any position of the accepted calls (End before its time, a
+	// third NextTimeout, Start on a running instance, an out-of-range index): whatever is refused leaves every later call as it was
+	if len(res.Violations) == 0 && len(kept) >= 2 && (hashStr(c.ID)%8 == 0 || len(kept) >= 6) {
+		var base APIResult
+		obs0 := runAPICalls(c, kept, &base)
+		probes := []APICall{{Op: "End"}, {Op: "NextTimeout"}, {Op: "Start"}, {Op: "FD", I: 256}, {Op: "HB", I: -1, K: "vec"}}
+	insert:
+		for p := 0; p <= len(kept); p++ {
+			for _, pr := range probes {
+				seq := append(append(append([]APICall{}, kept[:p]...), pr), kept[p:]...)
+				var scratch APIResult
+				obsI := runAPICalls(c, seq, &scratch)
+				if cls := obsI[p].cls; cls != "ST" && cls != "II" {
+					continue // accepted there: another behaviour, nothing to compare
+				}
+				for k := range kept {
+					a, b := obs0[k], obsI[k]
+					if k >= p {
+						b = obsI[k+1]
+					}
+					if a.cls != b.cls || a.running != b.running || !sameEmis(a.emis, b.emis) || fmt.Sprint(a.cbs) != fmt.Sprint(b.cbs) {
+						res.Violations = append(res.Violations, Violation{"C10", "RejectedCallChangedBehaviour",
+							fmt.Sprintf("%s me=%d: the refused call %s(%d) inserted at position %d changes call %d %s: (%s,%v,%v,%v) becomes (%s,%v,%v,%v) (accepted sequence %v)",
+								c.Proto, c.Me, pr.Op, pr.I, p, k, kept[k].Op, a.cls, a.running, emisKinds(a.emis), a.cbs, b.cls, b.running, emisKinds(b.emis), b.cbs, kept)})
+						break insert
+					}
+				}
 			}
 		}
 	}
